@@ -1308,11 +1308,14 @@ class SQLModel:
         )
         # order/limit columns
         if subsql.terms is not None:
-            subsql.terms = {
+            narrowed_terms = {
                 k: subsql.terms[k]
                 for k in select_columns_node.column_selection
                 if k in subusing
             }
+            if len(narrowed_terms) > 0:
+                # an empty term list would be rendered as "*" and drop the sub-query's own calculation
+                subsql.terms = narrowed_terms
         else:
             subsql.terms = []
         return subsql
@@ -1341,11 +1344,14 @@ class SQLModel:
             db_model=self, using=subusing, temp_id_source=temp_id_source
         )
         # /limit columns
-        subsql.terms = {
+        narrowed_terms = {
             k: subsql.terms[k]
             for k in using
             if k not in drop_columns_node.column_deletions
         }
+        if len(narrowed_terms) > 0:
+            # an empty term list would be rendered as "*" and drop the sub-query's own calculation
+            subsql.terms = narrowed_terms
         return subsql
 
     def order_to_near_sql(
